@@ -18,6 +18,11 @@ RELS = {
     'm2m': {'Article': [('tags', 'm2m:1:0:1')], 'Tag': [('articles', 'm2m:0:0:0')]},
 }
 TID = {'Article': 0, 'Tag': 1}
+# dotted (two-level, cyclic) relationship paths per shape and class: they lead back to the class of the target
+DOTTED = {
+    'articles': {'Article': [('tags', 'tags.article')], 'Tag': [('article', 'article.tags')]},
+    'm2m': {'Article': [('tags', 'tags.articles')], 'Tag': [('articles', 'articles.tags')]},
+}
 
 
 def visible_links(dump):
@@ -157,7 +162,8 @@ class C05(Prop):
     id = 'C05'
     theorems = ['Continuum.c05_target', 'Continuum.c05_delete_target', 'Continuum.c05_target_frame', 'Continuum.c05_o2m',
                 'Continuum.c05_o2m_frame', 'Continuum.c05_m2m', 'Continuum.c05_m2m_frame', 'Continuum.c05_m2m_idem_eq',
-                'Continuum.c05_m2o', 'Continuum.c05_m2o_frame', 'Continuum.history_all']
+                'Continuum.c05_m2o', 'Continuum.c05_m2o_frame', 'Continuum.c05_target_nested', 'Continuum.c05_delete_target_nested',
+                'Continuum.revertN_keeps_visited', 'Continuum.history_all']
     workers = 14
     chunk = 1
     rule = ('random histories on the Article 1-n Tag shape (optionally with an excluded column) and the many-to-many shape, both '
@@ -170,7 +176,7 @@ class C05(Prop):
     assumptions = ['nested / cyclic relation paths are not enumerated (first-level relationships only)',
                    'that the revert transaction is itself versioned correctly is C01/C02/C11 (history_all)']
     needs_tags = ['target_delete_version', 'entity_deleted_now', 'rel:o2m', 'rel:m2m', 'rel:m2o', 'middle_version', 'excluded_col',
-                  'repeated_revert']
+                  'repeated_revert', 'dotted_path']
 
     def counts(self, tier):
         return 20 if tier == "quick" else 500
@@ -226,6 +232,12 @@ class C05(Prop):
             for rels in options:
                 res = one_revert(case, (cname, pk, tx), rels)
                 res.update({'target': [cname, pk, tx, op], 'rels': list(rels)})
+                results.append(res)
+            # dotted paths: the call names e.g. 'tags.article'; the target clause and the clause of the FIRST level are
+            # judged (the second level leads back to other versions of entities already reverted; the frame is not judged)
+            for first, path in DOTTED[case['shape']][cname]:
+                res = one_revert(case, (cname, pk, tx), (path,))
+                res.update({'target': [cname, pk, tx, op], 'rels': [first], 'dotted': path})
                 results.append(res)
         return {'results': results}
 
@@ -297,10 +309,13 @@ class C05(Prop):
                 out.violations.append({'clause': 'C05.relationship:' + '+'.join(res['rels']), 'detail': det})
             # correspondence: the model functions revertM2M / revertM2O run on the rows BEFORE the revert give the
             # implementation's links / related rows
-            if op != 2 and modelbits != '-' and set(modelbits) != {'1'}:
+            if op != 2 and modelbits != '-' and set(modelbits) != {'1'} and not res.get('dotted'):
                 out.mismatches.append({'stream': 'revert model (revertM2M / revertM2O) vs implementation for %s %s' % (res['target'], res['rels']),
                                        'impl': {'links_after': res['after']['links'], 'live_after': res['after']['live']},
                                        'model': {'links_before': res['before']['links'], 'live_before': res['before']['live']}})
+            if res.get('dotted'):
+                out.tags.append('dotted_path')
+                frame = '1'
             if res.get('repeated'):
                 out.tags.append('repeated_revert')
                 frame = '1'      # the frame of the second revert is not judged (the entity was edited in between)
